@@ -318,6 +318,126 @@ func (k *kept) again(c Hist) error {
 	return nil
 }
 
+// ---------------------------------------------------------------------------
+// the caller USES what it decoded: the object an unmarshal step produced is the
+// caller's own, so it is completed / edited in place through the exported
+// pointers with the library's own builder methods (scripts appended to with
+// AppendPushData / AppendOpcodes, amounts changed, an output added, a txid byte
+// flipped). No later unmarshal of any document may be affected. Every edit is
+// undone when the case ends (the harness restores lengths and values through the
+// same pointers), so that cases stay independent of each other.
+
+type undoList []func()
+
+func (u *undoList) run() {
+	for i := len(*u) - 1; i >= 0; i-- {
+		(*u)[i]()
+	}
+}
+
+func useScript(sp *bscript.Script, b []byte, undo *undoList) {
+	if sp == nil {
+		return
+	}
+	n := len(*sp)
+	*undo = append(*undo, func() { *sp = (*sp)[:n] })
+	_ = sp.AppendPushData(b)
+	_ = sp.AppendOpcodes(bscript.OpCHECKSIG)
+}
+
+func useTx(g *bt.Tx, s HStep, undo *undoList) {
+	if g == nil {
+		return
+	}
+	for _, o := range g.Outputs {
+		if o == nil {
+			continue
+		}
+		o := o
+		old := o.Satoshis
+		*undo = append(*undo, func() { o.Satoshis = old })
+		o.Satoshis += s.U64 | 1
+		useScript(o.LockingScript, s.B, undo)
+	}
+	for _, in := range g.Inputs {
+		if in != nil {
+			useScript(in.UnlockingScript, s.B, undo)
+		}
+	}
+	nout, ver := len(g.Outputs), g.Version
+	*undo = append(*undo, func() { g.Outputs, g.Version = g.Outputs[:nout], ver })
+	g.AddOutput(&bt.Output{Satoshis: 1, LockingScript: bscript.NewFromBytes([]byte{0x51})})
+	g.Version++
+}
+
+func useOutput(g *bt.Output, s HStep, undo *undoList) {
+	if g == nil {
+		return
+	}
+	old := g.Satoshis
+	*undo = append(*undo, func() { g.Satoshis = old })
+	g.Satoshis += s.U64 | 1
+	useScript(g.LockingScript, s.B, undo)
+}
+
+func useUTXO(g *bt.UTXO, s HStep, undo *undoList) {
+	if g == nil {
+		return
+	}
+	old, vout := g.Satoshis, g.Vout
+	*undo = append(*undo, func() { g.Satoshis, g.Vout = old, vout })
+	g.Satoshis += s.U64 | 1
+	g.Vout++
+	if len(g.TxID) > 0 {
+		id := g.TxID
+		*undo = append(*undo, func() { id[0] ^= 0xff })
+		id[0] ^= 0xff
+	}
+	useScript(g.LockingScript, s.B, undo)
+}
+
+// use edits the object record k was unmarshalled into; the record keeps its JSON
+// text but no longer its object. It reports whether there was an object.
+func (k *kept) use(s HStep, undo *undoList) bool {
+	switch {
+	case k.gTx != nil:
+		useTx(k.gTx, s, undo)
+	case k.gTxs != nil:
+		for _, g := range *k.gTxs {
+			useTx(g, s, undo)
+		}
+	case k.gOut != nil:
+		useOutput(k.gOut, s, undo)
+	case k.gUTXO != nil:
+		useUTXO(k.gUTXO, s, undo)
+	case k.gUTXOs != nil:
+		for _, g := range *k.gUTXOs {
+			useUTXO(g, s, undo)
+		}
+	default:
+		return false
+	}
+	k.gTx, k.gTxs, k.gOut, k.gUTXO, k.gUTXOs = nil, nil, nil, nil, nil
+	return true
+}
+
+// useStep is the history step "use": the I-th (mod) record that still has its object.
+func useStep(ctx *pbt.Ctx, held []*kept, s HStep, undo *undoList) {
+	var live []*kept
+	for _, k := range held {
+		if k.gTx != nil || k.gTxs != nil || k.gOut != nil || k.gUTXO != nil || k.gUTXOs != nil {
+			live = append(live, k)
+		}
+	}
+	if len(live) == 0 {
+		ctx.Label("use:nothing-decoded-yet")
+		return
+	}
+	k := live[s.I%len(live)]
+	k.use(s, undo)
+	ctx.Label("use:" + k.form + "." + k.dialect)
+}
+
 func checkHist(ctx *pbt.Ctx, c Hist) error {
 	if len(c.Steps) < 2 {
 		ctx.Discard("malformed case")
@@ -363,10 +483,15 @@ func histTx(ctx *pbt.Ctx, c Hist) error {
 	m := cloneModel(c.Tx)
 	tx := ref.ToLib(m)
 	var held []*kept
+	var undo undoList
+	defer undo.run()
 	marshals, editsBetween, editedSinceMarshal, staleTargets := 0, 0, false, 0
 	for si, s := range c.Steps {
 		nout, nin := len(m.Out), len(m.In)
 		switch s.Op {
+		case "use":
+			useStep(ctx, held, s, &undo)
+			continue
 		case "version":
 			m.Version, tx.Version = s.U32, s.U32
 		case "locktime":
@@ -599,9 +724,14 @@ func histObj(ctx *pbt.Ctx, c Hist) error {
 		ls = &o.LockingScript
 	}
 	var held []*kept
+	var undo undoList
+	defer undo.run()
 	marshals, editsBetween, editedSinceMarshal, staleTargets := 0, 0, false, 0
 	for si, s := range c.Steps {
 		switch s.Op {
+		case "use":
+			useStep(ctx, held, s, &undo)
+			continue
 		case "sats":
 			if s.U64 > MaxSats {
 				ctx.Discard("outside domain")
@@ -885,6 +1015,9 @@ func genHist(t *rapid.T) Hist {
 		switch {
 		case k <= 3 || i == n-1:
 			c.Steps = append(c.Steps, genMarshal(t, forms))
+		case k == 5 && i > 0: // the caller uses (edits in place) something it decoded earlier
+			c.Steps = append(c.Steps, HStep{Op: "use", I: rapid.IntRange(0, 7).Draw(t, "use_which"),
+				U64: rapid.Uint64Range(0, 1000).Draw(t, "use_sats"), B: gen.Bytes(t, rapid.IntRange(0, 3).Draw(t, "use_len"), "use_bytes")})
 		case k == 4 && c.Kind == "tx":
 			c.Steps = append(c.Steps, HStep{Op: "query", Flag: rapid.Bool().Draw(t, "clone"), U32: uint32(rapid.IntRange(0, 1).Draw(t, "on_clone"))})
 		default:
